@@ -1190,7 +1190,8 @@ class Mps(MatrixProduct):
                             return func(0, y)
                         
                         if self.evolve_config.ivp_solver == "krylov":
-                            ms, Lanczos_vectors = expm_krylov(func1, evolve_dt, mps[imps].ravel().array)
+                            # func1(y) = H_eff y / coef is anti-Hermitian in real time; Lanczos needs the Hermitian operator
+                            ms, Lanczos_vectors = expm_krylov(lambda y: func1(y) * coef, evolve_dt / coef, mps[imps].ravel().array)
                             logger.debug(f"# of Lanczos_vectors, {Lanczos_vectors}")
                         else:
                             sol = solve_ivp(lambda t, y: func1(y), 
